@@ -1,10 +1,10 @@
-\* thorough: histories of 3 calls, exhaustive
+\* thorough, exhaustive: every history of 3 locate calls on every topology (2 target sequences x own/common map)
 SPECIFICATION Spec
 CONSTANTS
   MaxCalls = 3
   MemoAlways = FALSE
-  TopoIds = {"line3", "line4r", "line2s", "line3m", "rect32", "rect32r", "rect22m"}
-  NTargetSets = 5
+  TopoIds = {"line3", "line4r", "line2s", "line4m", "rect32", "rect32r", "rect33m"}
+  NTargetSets = 2
 INVARIANT ImageOK
 INVARIANT PickedContains
 INVARIANT OutsideRaises
